@@ -4,16 +4,21 @@ physical state of every call depend on the ledger only through the schedule of a
 namespace CC.ArraySized
 open CC CC.Gen
 
-theorem free_sched (m : Mem) : m.free.sched = m.sched := by
-  unfold Mem.free; split <;> rfl
+theorem free_sched (m : Mem) (t : Triple) : (m.freeT t).sched = m.sched := by
+  cases t
+  · simp only [Mem.freeT_conf]; unfold Mem.free; split <;> rfl
+  · unfold Mem.freeT; dsimp only; split <;> rfl
 
-theorem alloc_congr (m1 m2 : Mem) (h : m1.sched = m2.sched) :
-    m1.alloc.1 = m2.alloc.1 ∧ m1.alloc.2.sched = m2.alloc.2.sched := by
-  unfold Mem.alloc
-  rw [h]
-  cases m2.sched with
-  | nil => simp
-  | cons b t => cases b <;> simp
+theorem alloc_congr (m1 m2 : Mem) (t : Triple) (h : m1.sched = m2.sched) :
+    (m1.allocT t).1 = (m2.allocT t).1 ∧ (m1.allocT t).2.sched = (m2.allocT t).2.sched := by
+  cases t
+  · simp only [Mem.allocT_conf]
+    unfold Mem.alloc
+    rw [h]
+    cases m2.sched with
+    | nil => simp
+    | cons b t => cases b <;> simp
+  · exact ⟨rfl, h⟩
 
 /-! ### the loops compute their data without looking at the ledger -/
 theorem swapLoop_indep (dl i1 i2 : Nat) : ∀ (f i : Nat) (b : Buf Nat) (m1 m2 : Mem),
@@ -93,9 +98,9 @@ theorem expandCapacity_indep (a : ArraySized) (m1 m2 : Mem) (h : m1.sched = m2.s
     by_cases hl : a.nextCapacity > CC_MAX_ELEMENTS / a.dataLen
     · rw [if_pos hl, if_pos hl]; exact ⟨rfl, rfl, by simpa using h⟩
     · rw [if_neg hl, if_neg hl]
-      have hq := alloc_congr (m1.check (a.dataLen != 0)) (m2.check (a.dataLen != 0)) (by simpa using h)
+      have hq := alloc_congr (m1.check (a.dataLen != 0)) (m2.check (a.dataLen != 0)) a.triple (by simpa using h)
       rw [hq.1]
-      cases (m2.check (a.dataLen != 0)).alloc.1
+      cases ((m2.check (a.dataLen != 0)).allocT a.triple).1
       · exact ⟨rfl, rfl, hq.2⟩
       · refine ⟨rfl, rfl, ?_⟩
         simp only [Bool.not_true, Bool.false_eq_true, if_false, free_sched, Mem.check_sched]
@@ -143,9 +148,9 @@ theorem trimCapacity_indep (a : ArraySized) (m1 m2 : Mem) (h : m1.sched = m2.sch
     by_cases h2 : (if a.size < 1 then 1 else a.size) = a.capacity
     · rw [if_pos h2, if_pos h2]; exact ⟨rfl, rfl, h⟩
     · rw [if_neg h2, if_neg h2]
-      have hq := alloc_congr m1 m2 h
+      have hq := alloc_congr m1 m2 a.triple h
       rw [hq.1]
-      cases m2.alloc.1
+      cases (m2.allocT a.triple).1
       · exact ⟨rfl, rfl, hq.2⟩
       · refine ⟨rfl, rfl, ?_⟩
         simp only [Bool.not_true, Bool.false_eq_true, if_false, free_sched, Mem.check_sched]
